@@ -429,7 +429,7 @@ define_function(string_serial_correlation)
 
   if (s->length > 0)
   {
-    scct1 += scclast * (double) s->c_string[0];
+    scct1 += scclast * (double) (uint8_t) s->c_string[0];
   }
   scct2 *= scct2;
 
